@@ -87,7 +87,7 @@ def count_of(dims):
 # ------------------------------------------------------------------------------------------------
 # model -> file
 # ------------------------------------------------------------------------------------------------
-def channel_set(types):
+def channel_set(types, order='frame'):
     template = [{'label': b'LONG-NAME', 'code': 20}, {'label': b'REPRESENTATION-CODE', 'code': 15},
                 {'label': b'UNITS', 'code': 27}, {'label': b'DIMENSION', 'code': 18}]
     objects = []
@@ -96,6 +96,11 @@ def channel_set(types):
             objects.append({'name': (1, ch.get('copy', 0), ch['name'].encode()), 'comps': [
                 {'values': [('long ' + ch['name']).encode()]}, {'values': [ch['code']]}, {'values': [ch.get('units', 'm').encode()]},
                 {'count': len(ch['dims']), 'values': list(ch['dims'])}]})
+    # the CHANNEL set may define its channels in any order; a FRAME object's CHANNELS attribute fixes the order inside a frame
+    if order == 'reversed':
+        objects = objects[::-1]
+    elif order == 'rotated':
+        objects = objects[1:] + objects[:1]
     return {'type': b'CHANNEL', 'name': b'chs', 'template': template, 'objects': objects, 'lrtype': 3}
 
 
@@ -125,7 +130,7 @@ def build(lp):
     order = lp.get('order')
     if order is None:
         order = [ti for ti, t in enumerate(types) for _ in range(t['n'])]
-    sets = [c03.FILE_HEADER, c03.ORIGIN_FULL if lp.get('origin') == 'full' else c03.ORIGIN, channel_set(types), frame_set(types)] + list(lp.get('extra_sets', []))
+    sets = [c03.FILE_HEADER, c03.ORIGIN_FULL if lp.get('origin') == 'full' else c03.ORIGIN, channel_set(types, lp.get('chan_order', 'frame')), frame_set(types)] + list(lp.get('extra_sets', []))
     recs = [{'eflr': True, 'type': c03.lrtype_for(s), 'payload': c03.encode_set(s)} for s in sets]
     seen = [0] * len(types)
     iflr_rec_index = [[] for _ in types]
@@ -364,6 +369,10 @@ def gen_V(tier):
                 sels = [s for s in sels if s is None or s[0] == 'sample' or list(range(n))[slice(s[1], s[2], s[3])]]
                 ops = [['populate', 0, s, cs] for s in sels for cs in channel_sets(cfg)]
                 yield lp, ops
+                if len(cfg) > 1 and n == 3 and layout == 'one':
+                    # the CHANNEL set defines the channels in another order than the FRAME lists them
+                    for order in ('reversed', 'rotated'):
+                        yield dict(lp, chan_order=order), ops
 
 
 def gen_S(tier):
